@@ -1187,3 +1187,21 @@ Definition parses_old (jsx : bool) (s : str) : bool :=
   | TErr _ => false
   | TOk toks => match parse jsx toks with POk _ => true | PErr _ => false end
   end.
+
+(* ================================================================ C02: counters inside nested text, per copy *)
+(* `name{P}*N` for a payload without `$#` and without `${n}` fields: copy i (0-based) is the node whose value is ONE
+   string -- the literal runs, unescaped, with every counter replaced by its value in copy i+1 of N *)
+Theorem numbering_nested_text jsx env mr name P ds :
+  name_ok name -> payload_ok P = true -> no_ph P = true ->
+  forallb (fun kt => negb (is_field (fst kt))) (snd P) = true -> payload_text P <> [] ->
+  all_digits ds -> ds <> [] -> ce_text env = WNone ->
+  let n := count_of ds in
+  (Z.of_N n <= budget_of mr)%Z ->
+  parse_abbr jsx env mr (name ++ c_lbrace :: payload_text P ++ c_rbrace :: c_star :: ds) =
+    Ok (map (fun i => ANode (Some name) (Some [VStr (payload_out [mkRep n i false] P)]) (Some (mkRep n i false)) None [] false)
+            (nseq (N.to_nat n) 0%N)).
+Proof.
+  intros Hname Hb Hnp Hnf Hne Hd Hdne Htext n Hbud.
+  rewrite (text_nested_repeated jsx env mr name P ds Hname Hb Hnp Hd Hdne Htext Hbud).
+  f_equal. apply map_ext. intros i. fold n. rewrite (nested_value_flat _ P Hnf Hne). reflexivity.
+Qed.
